@@ -84,7 +84,12 @@ func (c *Conn) runReader() error {
 
 		msg = append(msg, buff...)
 		if len(buff) >= 3 && bytes.Equal(buff[0:3], []byte(endOfMsgTag)) {
-			c.reader <- msg
+			select {
+			case c.reader <- msg:
+			case <-c.ctx.Done():
+				// nobody reads any more (the consumer loop left on cancellation): do not block forever
+				return nil
+			}
 			msg = []byte{}
 		}
 	}
